@@ -33,7 +33,8 @@ theorem Pushed.tail_not_imm {P : Prog} {c : Cfg} {ins : Instr} {pushed : List In
 
 /-- who pushes the instructions that run at once: the complete table -/
 def ImmPushedBy (c : Cfg) (ins i : Instr) : Prop :=
-  (∃ frm e, ins = .closeScreen frm ∧ c.A.stack.getLast? = some e ∧ i = .callScr e.screen .closed none none) ∨
+  (∃ frm e, ins = .closeScreen frm ∧ c.A.stack.getLast? = some e ∧ (frm = none ∨ frm = some (.scr e.screen)) ∧
+    i = .callScr e.screen .closed none none) ∨
   (∃ top, ins = .processScreen ∧ c.A.stack.getLast? = some top ∧ (c.A.scr top.screen).ready = true ∧
     i = .afterSetup2 top) ∨
   (∃ top, ins = .processScreen ∧ c.A.stack.getLast? = some top ∧ (c.A.scr top.screen).ready = false ∧
